@@ -196,9 +196,13 @@ def verify_chain_set(ctx, budget, insts, n, chains, order):
     import xtuml
     idx = dict((id(x), i) for i, x in enumerate(insts))
     members = [insts[i] for i in order]
+    qs = xtuml.QuerySet(members)         # one set object, sorted across both phrases in turn
     for phrase in ('succeeds', 'precedes'):
         ctx.hit('SortOracle.chains')
-        got = [idx[id(x)] for x in call_sort(budget, xtuml.QuerySet(members), n, phrase)]
+        got = [idx[id(x)] for x in call_sort(budget, qs, n, phrase)]
+        if sorted(map(id, qs)) != sorted(map(id, members)):
+            raise Mismatch('argument-changed', 'sorting across %r changed the members of the set that was handed in: %r -> %r'
+                           % (phrase, order, [idx[id(x)] for x in qs]))
         if sorted(got) != sorted(order):
             raise Mismatch('chains/members', 'sorting %r across %r gave %r (not every member exactly once)'
                            % (chains, phrase, got))
@@ -226,9 +230,12 @@ def check_ring(ctx, budget, n, ring, route, rot):
     first = order[0]
     k = ring.index(first)
     fwd = list(ring[k:] + ring[:k])
+    qs = xtuml.QuerySet(members)
     for phrase in ('succeeds', 'precedes'):
         ctx.hit('SortOracle.ring')
-        got = [idx[id(x)] for x in call_sort(budget, xtuml.QuerySet(members), n, phrase)]
+        got = [idx[id(x)] for x in call_sort(budget, qs, n, phrase)]
+        if sorted(map(id, qs)) != sorted(map(id, members)):
+            raise Mismatch('argument-changed', 'sorting a ring across %r changed the members of the set that was handed in' % phrase)
         want = fwd if phrase == 'succeeds' else [fwd[0]] + fwd[1:][::-1]
         if got != want:
             raise Mismatch('ring/order', 'ring %r, set first %d, across %r gave %r, expected %r'
